@@ -157,6 +157,14 @@ void SerialAssembleAction::onStop()
     AssembleAction::onStop();
 }
 
+void SerialAssembleAction::onFinished(bool is_succ, const Reason &why, const Trace &trace)
+{
+    //! 有可能不是子动作自然结束产生的finish（如超时），此时要停止还在运行的子动作
+    stopCurrAction();
+
+    AssembleAction::onFinished(is_succ, why, trace);
+}
+
 void SerialAssembleAction::onReset()
 {
     curr_action_ = nullptr;
